@@ -25,7 +25,12 @@ Local Open Scope N_scope.
    segmentation [segs] of the rendered bytes (empty segments = EAGAIN rounds; [r0] = any reader state
    netbuf_read can be in, holding a prefix of the bytes), and - unless the body is delimited by the
    close itself - every way the connection ends afterwards (EOF, error, stall): exactly one callback,
-   and it is expect r. *)
+   and it is expect r.
+   NOTE: wf_response contains two clauses that are limits of the implementation, not of HTTP
+   (C09_wf_limit_clauses below names them): within_limits r = every header block, interim or final,
+   has lenN (render_head ..) <= maxhdr + 1 = 65537 bytes, and every chunk-size line has
+   lenN digits + lenN ext + 2 <= maxchlen = 256 bytes.  Without them the statement is false
+   (C09_over_limit_segmentation_dependent_refuted, known finding F12). *)
 Theorem C09_decode_wellformed :
   forall stale r0 limit ishead r segs e,
     wf_response ishead r = true -> lenN (resp_body r) <= limit -> limit < two64 ->
@@ -145,3 +150,25 @@ Theorem C09_exchange_exact :
     = Ok (request_layout q, Done [expect r]).
 Proof. exact exchange_exact. Qed.
 Print Assumptions C09_exchange_exact.
+
+(* the two limit clauses inside wf_response, isolated *)
+Theorem C09_wf_limit_clauses :
+  forall ishead r,
+    wf_response ishead r = true <-> wf_response_nolimits ishead r = true /\ within_limits r = true.
+Proof. exact wf_response_limit_clauses. Qed.
+Print Assumptions C09_wf_limit_clauses.
+
+(* KNOWN FINDING F12 (signature http.limits-segmentation-dependent).  The full statement of C09 without
+   the limit clauses is refuted: ex_overlimit (a chunked 200 whose only chunk-size line is "5;" followed
+   by 300 times "x"; replay corpus/http/limits_chunkline.case) satisfies every clause of wf_response
+   except the chunk-line length one, is decoded exactly when it arrives in one read, and is answered
+   with callback(NULL) when it arrives byte by byte: MAXCHLEN (like MAXHDR) is only tested while the
+   line is still incomplete. *)
+Theorem C09_over_limit_segmentation_dependent_refuted :
+  wf_response_nolimits false ex_overlimit = true /\ within_limits ex_overlimit = false /\
+  http_response_run repo_terminated 0 init_rdr 100 false (mkNet [render ex_overlimit] EndEof)
+    = Ok (Done [expect ex_overlimit]) /\
+  http_response_run repo_terminated 0 init_rdr 100 false
+    (mkNet (map (fun b => [b]) (render ex_overlimit)) EndEof) = Ok (Done [CbNull]).
+Proof. exact over_limit_segmentation_dependent. Qed.
+Print Assumptions C09_over_limit_segmentation_dependent_refuted.
